@@ -14,7 +14,7 @@ EXPLANATION = (
     "unqualified Identifier node through node_location, and offsets cross position_to_utf8 / utf8_range_to_position with "
     "the text of the same locator (units rule). Correctness for every cursor position and inverse-ness as a relation are "
     "not decided.")
-EXPLANATION += ' Further clauses: (R3) the handlers answer from trees of the current texts (shared C15.R1-R4, R6); (U) the units rules over the conversion functions and the handlers. (R4) REFS-WHOLE - the references handler removes nothing from the collected locations.'
+EXPLANATION += ' Further clauses: (R3) the handlers answer from trees of the current texts (shared C15.R1-R4, R6); (U) the units rules over the conversion functions and the handlers. (R4) REFS-WHOLE - the references handler removes nothing from the collected locations. R1 also requires External equality to pair each field of self with the same field of other; (R5) CURSOR - the cursor test is half-open.'
 TECHNIQUE = "static analysis: resolved-callee identity + provenance (def-use) rules on the LSP handlers"
 
 
